@@ -225,6 +225,13 @@ def raise_case(case):
             target = ns["target"]
         elif origin == "named":  # compiled under a name that is no path at all and looks like markup
             target = _load(case["fname"], case["src"])["target"]
+        elif origin == "linecache":  # no file: a pseudo name, the source is known to linecache (doctest, notebooks, generated code)
+            import linecache
+
+            name = "<generated %s>" % hashlib.sha1((case["src"] + salt).encode("utf-8")).hexdigest()[:10]
+            linecache.cache[name] = (len(case["src"]), None, case["src"].splitlines(True), name)
+            _PSEUDO[name] = case["src"]
+            target = _load(name, case["src"])["target"]
         elif origin == "notpython":  # compiled under the name of an existing file that is not Python
             target = _load(not_python_file(case["shape"]), case["src"])["target"]
         elif origin == "gone":  # compiled for a path that does not exist
@@ -270,11 +277,17 @@ def single_rows(src):
 _SRC_CACHE = {}
 
 
+_PSEUDO = {}  # pseudo file name -> source registered with linecache (no file of that name exists)
+
+
 def source_info(path):
     if path not in _SRC_CACHE:
         try:
-            with open(path, encoding="utf-8") as f:
-                text = f.read()
+            if path in _PSEUDO:
+                text = _PSEUDO[path]
+            else:
+                with open(path, encoding="utf-8") as f:
+                    text = f.read()
         except (OSError, UnicodeDecodeError):  # no file, or a file that is no text: there is no source to compare with
             text = None
         if text is None or text == "":
@@ -309,7 +322,10 @@ def _snippet(path, lineno, rows):
         single = known and info[1] is not None and num not in info[1]
         out.append({"num": num, "marked": marked, "text": cells(text), "known": known, "src": cells(src), "single": single, "feat": _feat(src),
                     "mark": mark, "delim": delim})
-    return {"line": lineno, "avail": info is not None and 1 <= lineno <= len(info[0]), "rows": out}
+    avail = info is not None and 1 <= lineno <= len(info[0])
+    if path in _PSEUDO and not rows:
+        avail = False  # source known to linecache only: showing no snippet is allowed ("source unavailable"); a shown one must be right
+    return {"line": lineno, "avail": avail, "rows": out}
 
 
 def project(text, frames, simple):
@@ -548,7 +564,7 @@ def run_render(case):
 
 
 def random_render_case(rng):
-    origin = rng.choice(["file"] * 8 + ["exec", "gone", "named", "notpython", "notpython"])
+    origin = rng.choice(["file"] * 8 + ["exec", "gone", "named", "notpython", "notpython", "linecache", "linecache"])
     chain = []
     for _ in range(rng.choice([0, 0, 1, 1, 2, 3, 5])):
         x = rng.random()
@@ -730,6 +746,7 @@ def setup():
     os.makedirs(APP)
     os.makedirs(LIB)
     _SRC_CACHE.clear()
+    _PSEUDO.clear()
 
 
 def teardown():
@@ -750,7 +767,7 @@ def run(ctx):
         "backslash, string with an unbalanced closing tag, string and comment holding U+2028 / form feed / U+0085): every row not touched by a multi-row token is shown verbatim. "
         "Every emitted input is replayed on the real classes and compared.  Exceptions raised through generated source files "
         "(failing statement at varying positions incl. the first rows, multi-row statements and strings, comments, tabs, "
-        "non-ASCII, markup-like text, characters str.splitlines() takes for line ends: U+2028/2029, FF, NEL, FS/GS/RS), through exec'd and file-less code (also compiled under file names that look like style tags, and under the names of existing files that are not Python: unterminated string, unbalanced brackets, bad dedent, NUL byte, binary bytes, empty, shorter than the line number), with 33 adversarial messages x 8 exception kinds, "
+        "non-ASCII, markup-like text, characters str.splitlines() takes for line ends: U+2028/2029, FF, NEL, FS/GS/RS), through exec'd and file-less code (also compiled under file names that look like style tags, under pseudo names whose source only linecache knows, and under the names of existing files that are not Python: unterminated string, unbalanced brackets, bad dedent, NUL byte, binary bytes, empty, shorter than the line number), with 33 adversarial messages x 8 exception kinds, "
         "a cause (also __context__ chains of 1200 / 1500 links - beyond the recursion limit - and circular ones), call chains through ignored / not ignored modules and recursion (direct, mutual) up to depth 60 are rendered "
         "at every verbosity, UTF-8 on/off, with/without an ignore pattern, simple/full; what was written is tokenised "
         "(head lines, listing entries, snippet rows with the source rows) and ErrorReportTrace decides every P-clause; the "
